@@ -487,6 +487,29 @@ theorem Acc_compressSlotsL : ∀ l, Acc (compressSlotsL l) (ownedSlots l) (fun l
     exact Acc.bindF (owned v' ++ [kid]) (Acc_compressSlotsL r) (by perm_count) (fun r' => Acc.pure' _ _ _ (by perm_count))
 end
 
+theorem Good_clearL : Good clearL [] := by
+  intro v
+  cases v with
+  | obj b c s => exact Acc.bindF (optId b) (Acc_freeAll _) (by perm_count) (fun _ => Acc.pure' _ _ _ (by perm_count))
+  | arr b c s => exact Acc.bindF (optId b) (Acc_freeAll _) (by perm_count) (fun _ => Acc.pure' _ _ _ (by perm_count))
+  | _ => exact Acc.pure' _ _ _ (by perm_count)
+
+def optOwned (r : Option LDoc) : List Nat :=
+  match r with
+  | some x => owned x
+  | none => []
+
+theorem Acc_reserveL (k n : Nat) : Acc (reserveL k n) [] (fun r => optOwned r) := by
+  unfold reserveL
+  split
+  · split
+    · exact Acc.pure' _ _ _ (by simp [optOwned])
+    · exact Acc.bind (mid := fun b => [b]) Acc_alloc (fun b => Acc.pure' _ _ _ (by simp [optOwned]))
+  · split
+    · exact Acc.pure' _ _ _ (by simp [optOwned])
+    · exact Acc.bind (mid := fun b => [b]) Acc_alloc (fun b => Acc.pure' _ _ _ (by simp [optOwned]))
+  · exact Acc.pure' _ _ _ (by simp [optOwned])
+
 theorem Good_compressL : Good compressL [] := fun v => (Acc_compressL v).permPre (by perm_count)
 
 end Qentem.ValueLedger
